@@ -787,7 +787,8 @@ mpeg2_ts_pkt_get_next(const uint8_t *buf, const size_t buf_size,
 	const uint8_t *ptm/*, *buf_end*/;
 	const size_t _buf_size = (buf_size - (mpeg2_ts_pkt_size - 1));
 
-	if (mpeg2_ts_pkt_size > (buf_size - off))
+	if (off >= buf_size || /* Nothing left; (buf_size - off) wraps. */
+	    mpeg2_ts_pkt_size > (buf_size - off))
 		return (0);
 	ptm = (buf + off);
 	if (0 != MPEG2_TS_HDR_IS_VALID((const mpeg2_ts_hdr_t*)ptm)) {
